@@ -42,7 +42,7 @@ Qed.
 
 (* ---- reductions on any representation ---- *)
 Section Red.
-Context {V : Type} (o : ops V) (L : laws o) (SC : sum_closed o).
+Context {V : Type} (o : ops V) (L : laws o).
 
 Lemma unify_rows_combine p (codes : list Z) (vc : list V) :
   unify_rows p (combine codes vc) = combine (unify_codes p codes) vc.
@@ -82,7 +82,7 @@ Theorem reduce_on_local r ng chs vchunks : api_value_reducer r -> local_wf ng ch
   = chunk_cells o r ng (combine (abs (ChunkedLocal chs)) (concat vchunks)).
 Proof.
   intros Hr Hwf. unfold reduce_on. simpl abs.
-  rewrite (chunked_model_equal_whole o L SC r ng _ Hr (local_chunks_ok chs vchunks ng Hwf)).
+  rewrite (chunked_model_equal_whole o L r ng _ Hr (local_chunks_ok chs vchunks ng Hwf)).
   now rewrite (local_rows chs vchunks ng Hwf).
 Qed.
 
